@@ -534,6 +534,12 @@ func runC14(w *World, r *Report) {
 	}
 	r.floor(ruleFrame, 100)
 	r.note("write instructions classified: %d", nWrites)
+	// each target's files reach that target's own directory whatever else was requested: the pairing (outputs[k], files of generator k)
+	// is intact at every write under cmd.Compile (a table keyed by the output path instead of the target loses it when two targets share
+	// a directory)
+	r.refile("C16/compile", "C14/target-pairing", func(sr *Report) { c16Compile(w, sr) }, func(o Obligation) bool {
+		return strings.Contains(o.Key, "receives the files of") || strings.Contains(o.Key, "operands resolve")
+	})
 
 	// ---- driver: generator instances are per-closure, closures capture only the model ----
 	const ruleDrv = "C14/driver"
